@@ -145,6 +145,9 @@ func (s *Struct) Assign(gen Generator, ctx *MethodContext, assignTo *AssignTo, s
 
 func shouldCheckAgainstZero(ctx *MethodContext, s, t *xtype.Type, isUpdate, call bool) bool {
 	switch {
+	case s == nil:
+		// custom function without source parameter: there is no source value to compare
+		return false
 	case !ctx.Conf.UpdateTarget && !isUpdate:
 		return false
 	case s.Struct && ctx.Conf.IgnoreStructZeroValueField:
